@@ -25,6 +25,10 @@ def provenance(coq):
     return prov
 
 
+def flat(tp):
+    return [f for e in tp for f in (e if isinstance(e, list) else [e])]
+
+
 def table_check(drv, violation, pid, cfg, info, seed, tier, viol_so_far):
     coq = drv.COQ
     ev = dict(translators=dict(gomodule=info.get('gomodule'), gocollate=info.get('gocollate')), table_proofs=cfg['table_proofs'],
@@ -32,16 +36,31 @@ def table_check(drv, violation, pid, cfg, info, seed, tier, viol_so_far):
     t0 = time.time()
     failed, out = None, ''
     outs = []
+
+    def compile_one(f):
+        return f, drv.run(['timeout', '900', 'coqc', '-R', coq, 'Verif', os.path.join(coq, f)], cwd=coq)
+
     with drv.Lock():
-        for f in cfg['table_proofs']:
-            rc, out = drv.run(['timeout', '900', 'coqc', '-R', coq, 'Verif', os.path.join(coq, f)], cwd=coq)
-            if rc != 0:
-                failed = f
-                vo = os.path.join(coq, f[:-2] + '.vo')
-                if os.path.exists(vo):
-                    os.remove(vo)
+        # an entry of "table_proofs" that is itself a list is a group of files without dependencies among them: compiled in parallel
+        for entry in cfg['table_proofs']:
+            group = entry if isinstance(entry, list) else [entry]
+            if len(group) > 1:
+                from concurrent.futures import ThreadPoolExecutor
+                with ThreadPoolExecutor(max_workers=min(8, len(group))) as ex:
+                    results = list(ex.map(compile_one, group))
+            else:
+                results = [compile_one(group[0])]
+            for f, (rc, o) in results:
+                if rc != 0 and failed is None:
+                    failed, out = f, o
+                if rc != 0:
+                    vo = os.path.join(coq, f[:-2] + '.vo')
+                    if os.path.exists(vo):
+                        os.remove(vo)
+                else:
+                    outs.append((f, o))
+            if failed is not None:
                 break
-            outs.append((f, out))
     ev['table_proofs_s'] = round(time.time() - t0, 1)
     if failed is None:
         bad = []
@@ -53,7 +72,7 @@ def table_check(drv, violation, pid, cfg, info, seed, tier, viol_so_far):
         ev['print_assumptions'] = pa
         if bad:
             violation(drv, pid, dict(property=pid, seed=seed, tier=tier, case='tableproof', kind='proof-obligation',
-                                     theorem_or_correspondence='%s compile but their theorems are not closed under the global context' % ', '.join(cfg['table_proofs']),
+                                     theorem_or_correspondence='%s compile but their theorems are not closed under the global context' % ', '.join(flat(cfg['table_proofs'])),
                                      output='\n'.join(bad)[-3000:]), 'no-failing-input-found')
             return 1, ev
         return 0, ev
